@@ -18,7 +18,7 @@ import (
 )
 
 const (
-	MaxCP = 0x10FFFF // full universe: all code points
+	MaxCP = 0x110000 // full universe: all code points and the end symbol 0x110000 the generator stores in sets
 	LU    = 7        // small universe for cardinality
 	SU    = 5        // tiny universe for String (every element is printed)
 )
